@@ -237,3 +237,108 @@ class _ProportionLaws(_BlocksContract):
 
 for _cls, _d in (("_RowProportions", "row"), ("_ColumnProportions", "column"), ("_TableProportions", "table")):
     REGISTRY.append(type("C_Laws_" + _d, (_ProportionLaws,), dict(cls=_cls, direction=_d, dates=False))())
+
+
+# ---- C12 residual z-scores and p-values -----------------------------------------------
+def _som_z(B, env):
+    return B.stub(
+        "second_order_measures",
+        weighted_counts=blocks_stub(B, "weighted_counts", spec.count_blocks(B, env, env.w)),
+        table_weighted_bases=blocks_stub(B, "table_weighted_bases", spec.table_base_blocks(B, env, env.w)),
+        row_weighted_bases=blocks_stub(B, "row_weighted_bases", spec.row_base_blocks(B, env, env.w)),
+        column_weighted_bases=blocks_stub(B, "column_weighted_bases", spec.column_base_blocks(B, env, env.w)),
+    )
+
+
+class ZscoresBlocks(_BlocksContract):
+    cls = "_Zscores"
+    props = ("C12", "C04")
+
+    # each block is verified in its own run (the two np.all guards of every block would
+    # otherwise multiply into 3^4 paths); `blocks` itself only collects the four
+    BLOCK_ATTR = {"00": "_base_values", "01": "_subtotal_columns", "10": "_subtotal_rows", "11": "_intersections"}
+
+    def configs(self):
+        return [dict(c, blk=b) for c in _BlocksContract.configs(self) for b in ("00", "01", "10", "11", "all")]
+
+    def run(self, B, cfg):
+        env = self.env(B, cfg)
+        obj = B.new("%s:_Zscores" % MOD, env.dims, _som_z(B, env), env.cube_measures)
+        # "at least two linearly independent rows and columns": rank of the base counts
+        defective = B.rank(env.w.counts) < 2
+        expected = spec.zscore_blocks(B, env, env.w, defective)
+        if cfg["blk"] == "all":
+            # wiring of .blocks: the four lazyproperties in the right places
+            s00, s01, s10, s11 = object(), object(), object(), object()
+            obj.__dict__.update(_base_values=s00, _subtotal_columns=s01, _subtotal_rows=s10, _intersections=s11)
+            blocks = obj.blocks
+            B.check("blocks-wiring", blocks[0][0] is s00 and blocks[0][1] is s01 and blocks[1][0] is s10 and blocks[1][1] is s11)
+            return
+        a, b = int(cfg["blk"][0]), int(cfg["blk"][1])
+        B.eq_tensor("blocks[%d][%d]" % (a, b), getattr(obj, self.BLOCK_ATTR[cfg["blk"]]), expected[a][b])
+
+    def assumptions(self):
+        return _BlocksContract.assumptions(self) + [
+            "A-NP matrix_rank: rank < 2 <=> all 2x2 minors vanish (exact arithmetic; numpy's tolerance not modelled)",
+        ]
+
+
+REGISTRY.append(ZscoresBlocks())
+
+
+class PvaluesBlocks(_BlocksContract):
+    cls = "_Pvalues"
+    props = ("C12",)
+
+    def run(self, B, cfg):
+        env = self.env(B, cfg)
+        defective = B.flag("defective")
+        z = spec.zscore_blocks(B, env, env.w, defective)
+        som = B.stub("second_order_measures", zscores=blocks_stub(B, "zscores", z))
+        obj = B.new("%s:_Pvalues" % MOD, env.dims, som, env.cube_measures)
+        blocks = obj.blocks
+        check_blocks(B, "blocks", blocks, spec.pvalue_blocks(B, env, z))
+        for a in (0, 1):
+            for b in (0, 1):
+                blk = blocks[a][b]
+                B.all_cells(
+                    "p-in[0,1][%d][%d]" % (a, b), blk.shape,
+                    lambda x, y, blk=blk: B.bor(
+                        B.isnan(B.rd(blk, x, y)), B.band(B.fle(0, B.rd(blk, x, y)), B.fle(B.rd(blk, x, y), 1))
+                    ),
+                )
+
+    def assumptions(self):
+        return _BlocksContract.assumptions(self) + ["A-CDF: norm.cdf in [0,1], >= 1/2 on [0, inf), NaN-propagating"]
+
+
+REGISTRY.append(PvaluesBlocks())
+
+
+class Chi2Lemma(Contract):
+    """C12: for a 2x2 CAT x CAT table with positive expected counts z^2 == Pearson chi-square
+    (lemma over the z-score spec; no code involved)"""
+
+    name = MOD + ":lemma.z2-equals-chi2-2x2"
+    props = ("C12",)
+
+    def run(self, B, cfg):
+        n = [[B.real("n%d%d" % (i, j), nonneg=True) for j in (0, 1)] for i in (0, 1)]
+        r = [n[i][0] + n[i][1] for i in (0, 1)]
+        c = [n[0][j] + n[1][j] for j in (0, 1)]
+        N = r[0] + r[1]
+        pos = B.band(r[0] > 0, r[1] > 0, c[0] > 0, c[1] > 0)
+        chi2 = 0
+        for i in (0, 1):
+            for j in (0, 1):
+                e = r[i] * c[j] / N
+                chi2 = chi2 + (n[i][j] - e) * (n[i][j] - e) / e
+        for i in (0, 1):
+            for j in (0, 1):
+                e = r[i] * c[j] / N
+                # z^2 = (n-e)^2 / (e (1-r/N)(1-c/N))
+                z2 = (n[i][j] - e) * (n[i][j] - e) / (e * (1 - r[i] / N) * (1 - c[j] / N))
+                B.check("z2==chi2[%d][%d]" % (i, j), B.bor(B.bnot(pos), B.feq(z2, chi2)))
+
+
+REGISTRY.append(Chi2Lemma())
